@@ -40,17 +40,23 @@ func Execute(ctx context.Context, strategy ExecutionStrategy, members []Member) 
 	case ExecutionStrategyOne:
 		res, i, err := ExecuteOne(ctx, members)
 		allRes := make([]proto.Message, len(members))
-		allRes[i] = res
+		if i < len(allRes) { // there is no result to report for an empty group
+			allRes[i] = res
+		}
 		return allRes, err
 	case ExecutionStrategyFast:
 		res, i, err := ExecuteFast(ctx, members)
 		allRes := make([]proto.Message, len(members))
-		allRes[i] = res
+		if i < len(allRes) { // there is no result to report for an empty group
+			allRes[i] = res
+		}
 		return allRes, err
 	case ExecutionStrategyRace:
 		res, i, err := ExecuteRace(ctx, members)
 		allRes := make([]proto.Message, len(members))
-		allRes[i] = res
+		if i < len(allRes) { // there is no result to report for an empty group
+			allRes[i] = res
+		}
 		return allRes, err
 	}
 }
